@@ -34,6 +34,22 @@ CLAIMED = {
         'possibly-None level. Does not decide that assignments form a '
         'root-to-leaf path nor totality beyond the None-key rule.',
         'DESIGN.md section 5, C01'),
+    'C02': (
+        'idiom check of the draw, value identity on symbolic terms, '
+        'backward data slices (role typing of the marker cache, leaf '
+        'provenance), typestate, axis-role type checking of the numeric '
+        'kernel',
+        'Decides structural necessary conditions of the vote being '
+        'computed on the right numbers: the marker subset is drawn without '
+        'replacement; one subset cuts the columns of both blocks; columns '
+        'are paired by name and the identity of the two gene lists is '
+        'asserted; only leaves under the parent compete; normalisation '
+        'precedes gene selection; in the kernel, means and norms run along '
+        'genes, the product contracts genes with genes, the arg-max runs '
+        'over reference rows per cell, votes are indexed (cell, reference '
+        'row), candidates are ranked per cell. Subset size, vote shares '
+        'and correlation means are values and are not decided.',
+        'DESIGN.md section 5, C02'),
     'C04': (
         'information-flow (order / value taint) abstract interpretation '
         'over the CFG with function summaries; seed provenance; merge-'
@@ -64,6 +80,46 @@ CLAIMED = {
         'axis. Value-exactness of the reads (index arithmetic) is not '
         'decided.',
         'DESIGN.md section 5, C05'),
+    'C06': (
+        'axis-role typing (non-interference) of the numeric kernel plus '
+        'the index identities of C01',
+        'Decides that the cell axis is only ever mapped over in '
+        'normalisation, correlation, arg-max, vote tally, aggregation and '
+        'ranking (no reduction, sort, contraction or non-identity gather '
+        'along it), that rows and columns are selected by the caller\'s '
+        'index / by name only, and that rows are selected, labelled and '
+        'written back through one index: output row i depends on input row '
+        'i, the marker subsets and the reference only. Rounding effects '
+        'of BLAS blocking are not decided.',
+        'DESIGN.md section 5, C06'),
+    'C07': (
+        'constant propagation under normalization == raw + must-pass-'
+        'through, R-ARMS, typestate on CellByGeneMatrix, backward data '
+        'slices (columns by name, cache roles)',
+        'Decides: raw input is probed for negative values on every path '
+        'to the election and a negative minimum raises with or without a '
+        'log; no matrix is converted to log2(CPM+1) after being '
+        'down-selected by gene and the class enforces this itself; every '
+        'chunk is reduced to the named query markers before dispatch; '
+        'query columns are selected through the matrix\'s own name map '
+        'and the cache is written and read in matching index spaces. '
+        'Scale invariance and raw == pre-normalised are algebraic and not '
+        'decided.',
+        'DESIGN.md section 5, C07'),
+    'C08': (
+        'value identity on symbolic terms, role typing by backward data '
+        'slices, R-ARMS, raise-under-condition, predicate folding by '
+        'constant propagation',
+        'Decides: the marker report is read from the very cache the '
+        'election used and the builder wrote; cache writer and readers '
+        'agree on index spaces and co-permute the two position arrays; '
+        'the identity of the selected gene lists is asserted; a root '
+        'without usable markers, a marker unknown to the reference and a '
+        'query sharing no marker raise with or without a log; single-child '
+        'parents are exempt in all four consumers (folded at n=1 and n=2); '
+        'the ancestor patch is restricted to query genes. The order in '
+        'which ancestors are consulted is not decided.',
+        'DESIGN.md section 5, C08'),
     'C09': (
         'schema agreement of sibling producers, CFG must-pass in merge '
         'loops, symbolic-term check of additive form and reduction axes, '
